@@ -19,6 +19,8 @@ EXHAUSTIVE = {"quick": "every ASCII character substituted and inserted at every 
               "thorough": "every ASCII character substituted and inserted at every position of 6 small files"}
 TRUSTED = ["universal-newline decoding and UTF-8 file encoding are modelled (splitLines), not verified"]
 QS = ["kappa", "fcr", "kd"]
+# further analyses of an object built from a file (a few per file)
+QS_MORE = ["delta", "scd", "region", "dmax", "omega", "linNCPR 3", "linHydro 2", "reduce 5 -", "seq", "len", "mw", "strof", "sty", "sigma", "ww"]
 
 
 def layout(seq, rng, star=None):
@@ -68,6 +70,8 @@ def fcase(text, kind, analyses=False, nontrivial=True):
     lines = ["parse " + h if text else "parse"]
     if analyses and text:
         lines += ["parseq %s %s" % (h, q) for q in QS]
+        k = sum(map(ord, text)) % len(QS_MORE)
+        lines += ["parseq %s %s" % (h, q) for q in (QS_MORE[k], QS_MORE[(k + 5) % len(QS_MORE)])]
     return Case(lines, {"kind": kind}, nontrivial=nontrivial)
 
 
